@@ -107,6 +107,9 @@ func main() {
 		}
 		for _, s := range scs {
 			c.AddEvals(1)
+			if c.Violations() >= 6 {
+				break // enough evidence; confirmation reruns of hangs are slow
+			}
 			if s.Result != nil && (s.Result.Hung || s.Result.Leaked > 0) {
 				s = vlib.Confirm(bins[v.ID()], s, nil) // absence verdicts need a generous second look
 			}
